@@ -416,11 +416,22 @@ Proof.
     + unfold len in *. rewrite rev_length. lia.
 Qed.
 
+Lemma is_at_long a rest : rest <> [] -> is_at (a :: rest) = false.
+Proof. intros H. destruct a; destruct rest; try congruence; reflexivity. Qed.
+
+(* what fmt_with_dot writes is never the free standing `@` *)
+Lemma name_shape_not_at n : Forall wf_label n -> is_at (name_shape_syms n) = false.
+Proof.
+  intros W. destruct n as [|l r]; [reflexivity|]. cbn [name_shape_syms].
+  inversion W as [|? ? [_ [L1 _]] _]; subst. destruct l as [|b l]; [cbn in L1; lia|].
+  cbn [map app]. apply is_at_long. intros H. apply app_eq_nil in H as [_ H]. apply app_eq_nil in H as [_ H]. discriminate.
+Qed.
+
 (* scan_name on the symbols of fmt_with_dot: the labels come back, octet for octet *)
 Lemma read_name_shape sp n origin : wf_name n ->
   read_name origin (shape_tok sp (TWord (name_shape_syms n))) = Ok n.
 Proof.
-  intros [W L]. unfold read_name. cbn [shape_tok t_syms].
+  intros [W L]. unfold read_name. cbn [shape_tok t_syms]. rewrite name_shape_not_at by exact W.
   destruct n as [|l r].
   - cbn. reflexivity.
   - cbn [name_shape_syms]. inversion W as [|? ? Wl Wr]; subst. destruct Wl as [Wlb [L1 L2]].
@@ -446,12 +457,13 @@ Proof.
   - apply read_name_shape, W.
 Qed.
 
-(* a single label, read as a relative name in front of an origin: octets preserved *)
-Theorem scan_show_label l o : wf_label l -> wire_len [l] + wire_len o <= 254 ->
+(* a single label, read as a relative name in front of an origin: octets preserved --
+   unless the label is exactly "@", which the reader takes for the origin *)
+Theorem scan_show_label l o : wf_label l -> l <> [ch_at] -> wire_len [l] + wire_len o <= 254 ->
   tokenize (show_label l ++ [ch_lf]) = Ok [mk_tok false false (map label_sym l)] /\
   read_name (Some o) (mk_tok false false (map label_sym l)) = Ok (l :: o).
 Proof.
-  intros [W [L1 L2]] Hw. split.
+  intros [W [L1 L2]] NA Hw. split.
   - unfold tokenize. unfold show_label. rewrite show_with_map.
     change (flat_map sym_text (map label_sym l)) with (shape_text (TWord (map label_sym l))).
     unfold st0. rewrite run_token.
@@ -459,6 +471,14 @@ Proof.
     + cbn [good_shape]. rewrite label_syms_safe by exact W. destruct l; [cbn in L1; lia | reflexivity].
     + reflexivity.
   - unfold read_name. cbn [t_syms].
+    assert (A : is_at (map label_sym l) = false).
+    { destruct l as [|b l]; [reflexivity|]. destruct l as [|b2 l].
+      - inversion W as [|? ? Hb _]; subst. destruct (label_table b Hb) as [T _]. unfold enc_ok in T.
+        apply andb_true_iff in T as [_ T]. cbn [map is_at]. destruct (label_sym b) as [c|c|c]; try reflexivity.
+        apply andb_true_iff in T as [T _]. apply andb_true_iff in T as [T _]. apply N.eqb_eq in T. subst c.
+        destruct (b =? ch_at) eqn:E; [|reflexivity]. apply N.eqb_eq in E. subst b. congruence.
+      - cbn [map]. apply is_at_long. discriminate. }
+    rewrite A.
     rewrite <- (app_nil_r (map label_sym l)).
     rewrite name_syms_label by (try exact W; unfold len, label_latest; lia).
     cbn [name_syms app]. rewrite N.add_0_l.
@@ -573,10 +593,17 @@ Proof.
     + fold (dec_value (show_dec n)). rewrite show_dec_value. exact H.
 Qed.
 
-(* the reader's unsigned scanner panics (debug build) on e.g. "256" for a u8:
-   checked_mul succeeds, the unchecked += overflows *)
-Lemma read_uint_overflow_panics :
-  read_uint 255 (mk_tok false true (digit_syms [50; 53; 54])) = Panic 1.
+(* a lone "@" label is written verbatim and read back as the origin *)
+Lemma scan_show_label_refuted : exists l o, wf_label l /\ wire_len [l] + wire_len o <= 254 /\
+  read_name (Some o) (mk_tok false false (map label_sym l)) <> Ok (l :: o).
+Proof.
+  exists [ch_at], []. split; [split; [repeat constructor; unfold ch_at; lia | cbn; lia]|].
+  split; [vm_compute; discriminate | vm_compute; discriminate].
+Qed.
+
+(* overflow of the last digit is an error (checked_add), e.g. "256" for a u8 *)
+Lemma read_uint_overflow_is_error :
+  read_uint 255 (mk_tok false true (digit_syms [50; 53; 54])) = Err E_number.
 Proof. vm_compute. reflexivity. Qed.
 
 (* ------------------------------------------------------------------ non-vacuity *)
